@@ -20,7 +20,7 @@ RULE = ("stereo-valid StereoMolGraphs: stars of every coordination class with EV
         "are regenerated); the export does not change the exported graph.  distinct = graphs round-tripped")
 ASSUMPTIONS = ["RDKit atom-map numbers must be positive, which bounds 'arbitrary identifiers' to positive ids",
                "fully specified parities"]
-BUDGET = {"quick": 200, "thorough": 1200}
+BUDGET = {"quick": 600, "thorough": 1200}
 SMG = RG.SMG
 POOL2 = [17, 3, 250, 9, 1000, 42, 77, 5, 123, 64, 8, 31, 900, 12]
 
